@@ -74,9 +74,47 @@ def oracle(ctx, tr):
             ctx.fail("disconnect-below-cap", case(), "only %d failures counted" % fails)
         if r.get("wire"):
             ctx.disagree("wire: client/server views differ", case(), None, r["wire"])
-        authed = bool(r["authed"])
+        # independent of Transport.is_authenticated(): granted = USERAUTH_SUCCESS was sent
+        authed = authed or any(m == b"\x34" for m in sent)
+        if r["authed"] and not authed:
+            ctx.fail("reported-authenticated-without-userauth-success", case(),
+                     "is_authenticated() is true although no USERAUTH_SUCCESS was sent")
         dead = not r["active"]
     return nontrivial
+
+
+def fixed_sessions(rng, tables):
+    """the two refusals at every position: on the first request and after a failed / partially successful / probing
+    request for the pinned user"""
+    S = L.S
+    makers = []
+    for first in (None, 2, 1, "probe"):
+        for bad in ("service", "user"):
+            for svc in (b"ssh-userauth", b"", b"ssh-connection2"):
+                if bad == "user" and svc != b"ssh-userauth":
+                    continue
+
+                def mk(sid, first=first, bad=bad, svc=svc):
+                    gen = L.Gen(rng, "c16", tables)
+                    user = gen.user
+                    steps = [L.mk_step(gen, 5, S(b"ssh-userauth"))]
+                    if first == "probe":
+                        key = L.client_keys()[0][0]
+                        steps.append(L.pk_step(gen, sid, user, key, "ssh-ed25519", False, 0))
+                    elif first is not None:
+                        steps.append(L.mk_step(gen, 50, S(user, b"ssh-connection", b"password", False, b"pw"),
+                                               {"r_password": first}))
+                    if bad == "service":
+                        steps.append(L.mk_step(gen, 50, S(user, svc, b"password", False, b"pw"), {"r_password": 0}))
+                    else:
+                        steps.append(L.mk_step(gen, 50, S(user + b"2", b"ssh-connection", b"password", False, b"pw"),
+                                               {"r_password": 0}))
+                    steps.append(L.mk_step(gen, 50, S(user, b"ssh-connection", b"password", False, b"pw"),
+                                           {"r_password": 0}))
+                    return steps
+
+                makers.append((False, mk))
+    return makers
 
 
 def run(ctx):
@@ -94,7 +132,8 @@ def run(ctx):
     tables = L.gen_tables(ctx)
     ctx.build(extra_modules=["PV.Model.AuthServerDriver"])
     n = 700 if ctx.thorough else 150
-    traces = L.run_profile(ctx, "C16", "c16", n, tables, max_steps=12)
+    makers = fixed_sessions(ctx.rng, tables) + L.profile_makers(ctx, "c16", n, tables, max_steps=12)
+    traces = L.run_sessions(ctx, "C16", makers)
     L.compare_traces(ctx, traces, "C16")
     for k, tr in enumerate(traces):
         nt = oracle(ctx, tr)
